@@ -303,6 +303,13 @@ def load_all_ways(label, data):
                     f"{way}: a token starting at {lf.stats['maxpos']} "
                     f"({lf.stats['maxtok']!r}) was requested, END is at {end_pos}; "
                     f"tail starts {data[len(label):len(label) + 40]!r}")
+        if lf.stats.get("maxpos_all", -1) > end_pos:
+            # some other pass over the text (not the parse itself) lexed beyond END
+            return (f"C09/{way}/token-beyond-END-in-a-pre-pass",
+                    f"{way}: a token starting at {lf.stats['maxpos_all']} "
+                    f"({lf.stats['maxtok_all']!r}) was requested from one of "
+                    f"{lf.stats.get('lexers')} token generators, END is at {end_pos}; "
+                    f"tail starts {data[len(label):len(label) + 40]!r}")
     return None
 
 
@@ -589,8 +596,9 @@ FIXED_LABELS = [
     "a = 1\r\nb = (1,\r\n 2)\r\nEND", "a = x-\rb = 2\nEND", "a = \"l1\r\nl2\"\nEND",
     "/* c\rd */ a = 1\rEND", "a = 1 <m\rs>\nEND", "a = 1\n\rEND", "a = 1\x0b\x0cb = 2\x0cEND",
     "a = \"caf\u00e9\"\rEND", "note = \"a -\r   b\"\rEND",
+    "a = 1 # ---\nb = 2\nEND", "# ---- geometry ----\na = 1\nEND", "a = 1 # x-\r\nEND",
 ]
-FIXED_TAILS = [b"", b"\n", b"\r", b"\n\xff", b"\r\nbinary\x00\xfe", b" \xfe", b"\r\xc3"]
+FIXED_TAILS = [b"", b"\n", b"\r", b"\n\xff", b"\nfoo bar = baz", b" # -\n x y z", b"\r\nbinary\x00\xfe", b" \xfe", b"\r\xc3"]
 
 
 def fixed_loads(acc):
